@@ -132,8 +132,9 @@ def secop_by_name():
 class StubDispatcher:
     """does, per call, what the plan says (cyclic); records what it was asked and what it did"""
 
-    def __init__(self, plan):
+    def __init__(self, plan, by_request=False):
         self.plan = plan or ['ok']
+        self.by_request = by_request     # what it does is a function of the request alone (no state at all)
         self.calls = []
         self.script = []
         self.sock = None
@@ -147,7 +148,11 @@ class StubDispatcher:
     def handle_request(self, conn, msg):
         from frappy.protocol.messages import REQUEST2REPLY, IDENTREQUEST, IDENTREPLY, EVENTREPLY, LOG_EVENT
         from frappy.errors import ProtocolError
-        kind = self.plan[len(self.calls) % len(self.plan)]
+        if self.by_request:
+            import zlib
+            kind = self.plan[zlib.crc32(repr(msg).encode('utf-8', 'replace')) % len(self.plan)]
+        else:
+            kind = self.plan[len(self.calls) % len(self.plan)]
         self.calls.append(msg)
         action, spec, data = msg
         rec = {'async': []}
@@ -330,31 +335,41 @@ def obs_frame(frame):
     return {'a': hx(p[0]), 's': hx(p[1]), 'c': cls, 'd': p[2] != b''}
 
 
-def run_impl(case):
-    """deliver the chunks to a real TCPRequestHandler; returns what it sent and what the dispatcher saw/did"""
-    from frappy.protocol.interface.tcp import TCPRequestHandler
+def set_stack_dump(detailed):
     import frappy.protocol.interface.handler as fh
     # the stack dumps inside error reports repr() every local of every frame (including the harness's case lists);
     # their text is not observed (detailed_errors is off, the dict is cleared before sending)
     if 'stack' not in _ORIG:
         _ORIG['stack'], _ORIG['tb'] = fh.formatExtendedStack, fh.formatExtendedTraceback
-    detailed = bool(case['disp'].get('detailed'))
     if detailed:      # the detailed_errors=True path with the real stack dump
         fh.formatExtendedStack, fh.formatExtendedTraceback = _ORIG['stack'], _ORIG['tb']
     else:
         fh.formatExtendedStack = lambda *a, **k: ''
         fh.formatExtendedTraceback = lambda *a, **k: ''
+    return detailed
+
+
+def make_dispatcher(disp):
+    """the dispatcher of a case: a stub, or the real Dispatcher of a fresh small node (returned unwrapped)"""
+    if disp['kind'] == 'stub':
+        return StubDispatcher(disp['plan'], disp.get('by_request', False))
+    node = make_real_node(disp.get('nan', False))
+    if disp.get('ts'):
+        # a time stamp handed in from outside (proxy / sea modules relay the remote node's), here not finite
+        node.secnode.modules['m'].announceUpdate('value', 2.0, None, float(disp['ts']))
+    return node.dispatcher
+
+
+def run_impl(case, shared=None):
+    """deliver the chunks to a real TCPRequestHandler; returns what it sent and what the dispatcher saw/did.
+    `shared`: the dispatcher of a node that lives longer than this connection (sessions)"""
+    from frappy.protocol.interface.tcp import TCPRequestHandler
+    detailed = set_stack_dump(bool(case['disp'].get('detailed')))
     chunks = [bytes.fromhex(c) for c in case['chunks']]
     sock = FakeSock(chunks)
-    disp = case['disp']
-    if disp['kind'] == 'stub':
-        d = StubDispatcher(disp['plan'])
-    else:
-        node = make_real_node(disp.get('nan', False))
-        if disp.get('ts'):
-            # a time stamp handed in from outside (proxy / sea modules relay the remote node's), here not finite
-            node.secnode.modules['m'].announceUpdate('value', 2.0, None, float(disp['ts']))
-        d = RecordingDispatcher(node.dispatcher)
+    d = shared if shared is not None else make_dispatcher(case['disp'])
+    if not isinstance(d, StubDispatcher):
+        d = RecordingDispatcher(d)
     d.sock = sock
     srv = ServerStub(d)
     srv.detailed_errors = detailed
@@ -494,6 +509,198 @@ def gen_concurrent(rng):
             'b_one_chunk': rng.random() < 0.5}
 
 
+# ----------------------------------------------------------------------------------------
+# sessions: several connections one after the other on ONE node (the dispatcher is shared by all connections of a node),
+# and the same session again on a fresh node with some neutral request lines left out -- "no input changes the answers
+# given to other lines".  Which lines are neutral is decided in Lean (verb `neutral`), and so is the verdict (`judge_indep`).
+# ----------------------------------------------------------------------------------------
+def canon_frame(frame):
+    """an emitted line without what legitimately differs between two runs: the time stamp in the qualifiers of
+    `[value, {qualifiers}]` is masked, an error report is reduced to its class name (canonicalisation only)"""
+    body = frame[:-1] if frame.endswith(b'\n') else frame
+    p = body.split(b' ', 2)
+    if len(p) < 3:
+        return frame
+    try:
+        data = json.loads(p[2])
+    except Exception:
+        return frame
+    if p[0].startswith(b'error_'):
+        if isinstance(data, list) and data and isinstance(data[0], str):
+            data = [data[0]]
+    elif isinstance(data, list) and len(data) == 2 and isinstance(data[1], dict) and 't' in data[1]:
+        data = [data[0], dict(data[1], t=0)]
+    return b' '.join(p[:2] + [json.dumps(data).encode()]) + (b'\n' if frame.endswith(b'\n') else b'')
+
+
+def run_session(disp, conns):
+    """`conns`: one chunk list (hex) per connection; the connections are served one after the other by real
+    TCPRequestHandlers on one dispatcher.  Returns one run_impl result per connection."""
+    d = make_dispatcher(disp)
+    res = []
+    for chunks in conns:
+        n0 = len(d.calls) if isinstance(d, StubDispatcher) else 0
+        r = run_impl({'chunks': chunks, 'disp': disp}, shared=d)
+        if n0:
+            r['calls'], r['script'] = r['calls'][n0:], r['script'][n0:]
+        elif isinstance(d, StubDispatcher):
+            r['calls'], r['script'] = list(r['calls']), list(r['script'])
+        res.append(r)
+    return res
+
+
+PROBE_ACTIONS = ['describe', 'describe', 'describe', 'activate', 'deactivate', 'ping', 'logging', '*IDN?', 'help']
+
+
+def gen_probe(rng):
+    """a request that asks for nothing a module carries out, with any specifier"""
+    action = rng.choice(PROBE_ACTIONS) if rng.random() < 0.85 else rng.choice(COLLIDING)
+    spec = rng.choice(SPECS) if rng.random() < 0.8 else ''
+    data = ''
+    if action == 'logging':
+        data = rng.choice(['"debug"', '"off"', '"error"', '1', ''])
+    elif rng.random() < 0.1:
+        data = rng.choice(DATA)
+    if data and not spec:
+        spec = rng.choice(SPECS[1:])
+    return ' '.join([action, spec, data] if data else ([action, spec] if spec else [action])).encode('utf-8')
+
+
+def gen_session(rng):
+    """the streams of 1-3 connections of one node"""
+    streams = []
+    for _ in range(rng.choice([1, 2, 2, 3])):
+        lines = []
+        for _ in range(rng.choice([1, 2, 3, 4, 6])):
+            ln = gen_probe(rng) if rng.random() < 0.55 else gen_request(rng, True)
+            if rng.random() < 0.25:
+                ln = mutate(rng, ln)
+            lines.append(ln)
+        stream = b''.join(ln + rng.choice(EOLS) for ln in lines)
+        if rng.random() < 0.1:
+            stream += gen_request(rng, True)[:rng.randrange(1, 8)]
+        streams.append(stream)
+    if rng.random() < 0.75:
+        disp = {'kind': 'real', 'nan': rng.random() < 0.1}
+    else:
+        disp = {'kind': 'stub', 'plan': gen_plan(rng), 'by_request': True}
+    return streams, disp
+
+
+def choose_marks(rng, neutral):
+    """which lines stay (`neutral`: per connection, per line, may the line be left out?)"""
+    mode = rng.randrange(5)
+    cand = [(i, k) for i, ns in enumerate(neutral) for k, n in enumerate(ns) if n]
+    keep = [[True] * len(ns) for ns in neutral]
+    if not cand:
+        return keep
+    if mode == 0:        # one line
+        drop = [rng.choice(cand)]
+    elif mode == 1:      # all of them
+        drop = cand
+    elif mode == 2:      # all of them on one connection: the others must not notice
+        c = rng.choice(cand)[0]
+        drop = [x for x in cand if x[0] == c]
+    else:
+        drop = [x for x in cand if rng.random() < 0.5] or [rng.choice(cand)]
+    for i, k in drop:
+        keep[i][k] = False
+    return keep
+
+
+def kept_stream(stream, keep):
+    pieces = stream.split(b'\n')
+    return b''.join(ln + b'\n' for ln, k in zip(pieces[:-1], keep) if k) + pieces[-1]
+
+
+def session_case(rng, streams, disp, keep):
+    return {'kind': 'session', 'disp': disp,
+            'conns': [{'chunks': [hx(c) for c in segment(rng, s) if c], 'keep': k,
+                       'kept_chunks': [hx(c) for c in segment(rng, kept_stream(s, k)) if c]} for s, k in zip(streams, keep)]}
+
+
+def evaluate_sessions(ctx, cases):
+    """both runs of every session on the implementation; every connection of both runs goes through the wire model and
+    the per-connection judge like any other case; then the pair of runs is judged for independence"""
+    out = []
+    flat_cases, flat_impls = [], []
+    for case in cases:
+        full = run_session(case['disp'], [c['chunks'] for c in case['conns']])
+        kept = run_session(case['disp'], [c['kept_chunks'] for c in case['conns']])
+        for c, r in zip(case['conns'], full):
+            flat_cases.append({'chunks': c['chunks'], 'disp': case['disp']})
+            flat_impls.append(r)
+        for c, r in zip(case['conns'], kept):
+            flat_cases.append({'chunks': c['kept_chunks'], 'disp': case['disp']})
+            flat_impls.append(r)
+        out.append({'case': case, 'full': full, 'kept': kept})
+    evs = evaluate(ctx, flat_cases, flat_impls)
+    reqs = []
+    pos = 0
+    for o in out:
+        n = len(o['case']['conns'])
+        o['evs'] = evs[pos:pos + 2 * n]
+        pos += 2 * n
+        reqs.append({'p': 'C07', 'k': 'judge_indep', 'conns': [
+            {'stream': ''.join(c['chunks']), 'keep': c['keep'], 'all': [hx(canon_frame(x)) for x in f['outs']],
+             'kept': [hx(canon_frame(x)) for x in k['outs']]} for c, f, k in zip(o['case']['conns'], o['full'], o['kept'])]})
+    for o, a in zip(out, ctx.driver.batch(reqs)):
+        if 'driver_error' in a:
+            raise RuntimeError(f'driver error: {a} on {o["case"]}')
+        if a['bad'] is not None and a['bad']['clause'] == 'case_drops_state_request':
+            raise RuntimeError(f'session case leaves out a line that is not neutral: {a} {o["case"]}')
+        o['bad'] = a['bad']
+    return out
+
+
+def session_lines(case):
+    return [b''.join(bytes.fromhex(x) for x in c['chunks']).split(b'\n')[:-1] for c in case['conns']]
+
+
+def session_signature(o):
+    """the request class of the line whose answer changed"""
+    bad = o['bad']
+    kept = [ln for ln, k in zip(session_lines(o['case'])[bad['conn']], o['case']['conns'][bad['conn']]['keep']) if k]
+    return 'C07:independent:answer_changed:' + (request_class(kept[bad['k']]) if bad['k'] < len(kept) else '?')
+
+
+def describe_session(o):
+    bad = o['bad']
+    txt = f"{bad}: dispatcher={o['case']['disp']}"
+    for i, (lines, c, f, k) in enumerate(zip(session_lines(o['case']), o['case']['conns'], o['full'], o['kept'])):
+        txt += (f" | connection {i}: lines={[ln[:60] for ln in lines]} left out={[j for j, x in enumerate(c['keep']) if not x]}"
+                f" answers with all lines={[x[:70] for x in f['outs']][:8]} answers without them={[x[:70] for x in k['outs']][:8]}")
+    return txt
+
+
+def shrink_session(ctx, o):
+    """fewest lines (each in one chunk, '\\n' as terminator) that still make the judge complain in the same way"""
+    sig = session_signature(o)
+    case = o['case']
+    items = [(i, ln, k) for i, (lines, c) in enumerate(zip(session_lines(case), case['conns'])) for ln, k in zip(lines, c['keep'])]
+
+    def build(its):
+        conns = []
+        for i in range(len(case['conns'])):
+            mine = [(ln, k) for j, ln, k in its if j == i]
+            conns.append({'chunks': [hx(b''.join(ln + b'\n' for ln, _ in mine))] if mine else [],
+                          'keep': [k for _, k in mine],
+                          'kept_chunks': [hx(b''.join(ln + b'\n' for ln, k in mine if k))] if any(k for _, k in mine) else []})
+        return {'kind': 'session', 'disp': case['disp'], 'conns': conns}
+
+    def fails(its):
+        e = evaluate_sessions(ctx, [build(its)])[0]
+        return e['bad'] is not None and session_signature(e) == sig
+
+    try:
+        if not fails(items):
+            return o
+        small = ddmin(items, fails, max_tests=80)
+        return evaluate_sessions(ctx, [build(small)])[0]
+    except Exception:
+        return o
+
+
 def oracle_tables(ctx, streams):
     """utf8ok / json.loads answers of the real Python functions on the arguments the model will pass"""
     answers = ctx.driver.batch([{'p': 'C07', 'k': 'split', 'stream': hx(s)} for s in streams])
@@ -529,9 +736,10 @@ def same_data(model_hex, impl_data):
         return False
 
 
-def evaluate(ctx, cases):
+def evaluate(ctx, cases, impls=None):
     """runs cases on implementation and model; returns list of dicts (impl, model answer, judge answer)"""
-    impls = [run_impl(c) for c in cases]
+    if impls is None:
+        impls = [run_impl(c) for c in cases]
     streams = [b''.join(bytes.fromhex(x) for x in c['chunks']) for c in cases]
     # one oracle table per distinct stream
     distinct = list(dict.fromkeys(streams))
@@ -847,12 +1055,13 @@ def run(ctx):
     big = ctx.tier == 'thorough' or ctx.escalated
     cases = []
     conc_corpus = []
+    sess_corpus = []
     cdir = os.path.join(ctx.verif, 'corpus', 'C07')
     if os.path.isdir(cdir):
         for fn in sorted(os.listdir(cdir)):
             if fn.endswith('.json'):
                 c = json.load(open(os.path.join(cdir, fn)))['case']
-                (conc_corpus if c.get('kind') == 'concurrent' else cases).append(c)
+                {'concurrent': conc_corpus, 'session': sess_corpus}.get(c.get('kind'), cases).append(c)
     ncorpus = len(cases)
     # exhaustive segmentations of short streams
     shorts = list(SHORT_STREAMS)
@@ -929,6 +1138,57 @@ def run(ctx):
                 res.violations.append({'sig': sig, 'what': describe(ev), 'case': ev['case'],
                                        'detail': {'verdict': ev['judge']['bad'], 'died': ev['impl']['died_text']}})
     res.notes.append(f'{ncorpus} corpus cases run first')
+    # ---------- sessions: connections one after the other on one node, run again with neutral lines left out ----------
+    gen = [gen_session(rng) for _ in range(ctx.budget(500, 5000))]
+    answers = ctx.driver.batch([{'p': 'C07', 'k': 'neutral', 'stream': hx(s)} for streams, _ in gen for s in streams])
+    sessions = list(sess_corpus)
+    pos = 0
+    for streams, disp in gen:
+        neutral = []
+        for _ in streams:
+            if 'driver_error' in answers[pos]:
+                raise RuntimeError(answers[pos])
+            neutral.append(answers[pos]['neutral'])
+            pos += 1
+        sessions.append(session_case(rng, streams, disp, choose_marks(rng, neutral)))
+    for lo in range(0, len(sessions), 200):
+        for o in evaluate_sessions(ctx, sessions[lo:lo + 200]):
+            case = o['case']
+            res.evaluations += 1
+            res.traces += 2 * len(case['conns'])
+            res.count('session.cases')
+            res.count('session.dispatcher.' + case['disp']['kind'])
+            res.count('session.connections=%d' % len(case['conns']))
+            ndrop = sum(1 for c in case['conns'] for k in c['keep'] if not k)
+            nkeep = sum(1 for c in case['conns'] for k in c['keep'] if k)
+            res.count('session.lines-left-out=%s' % (ndrop if ndrop < 4 else '4+'))
+            res.count('session.lines-kept=%s' % (nkeep if nkeep < 4 else '4+'))
+            for lines, c in zip(session_lines(case), case['conns']):
+                for ln, k in zip(lines, c['keep']):
+                    res.count(('session.kept.' if k else 'session.left-out.') + request_class(ln))
+            if ndrop and nkeep and len(case['conns']) > 1:
+                res.nontriv(case)
+            for ev in o['evs']:
+                if ctx.model_ok:
+                    dis = compare(ev)
+                    if dis is not None:
+                        res.disagreements.append({'case': ev['case'], 'model': dis,
+                                                  'impl': {'sent': [x[:100].decode('latin-1') for x in ev['impl']['outs']][:8]}})
+                if ev['judge']['bad'] is not None:
+                    sig = signature(ev)
+                    if sig not in seen_sigs:
+                        seen_sigs.add(sig)
+                        res.violations.append({'sig': sig, 'what': 'in a session: ' + describe(ev), 'case': ev['case'],
+                                               'detail': {'verdict': ev['judge']['bad'], 'died': ev['impl']['died_text']}})
+            if o['bad'] is not None:
+                sig = session_signature(o)
+                if sig in seen_sigs:
+                    continue
+                seen_sigs.add(sig)
+                if shrunk < 8:
+                    o = shrink_session(ctx, o)
+                    shrunk += 1
+                res.violations.append({'sig': sig, 'what': describe_session(o), 'case': o['case'], 'detail': {'verdict': o['bad']}})
     # ---------- concurrency: two connections + an updater thread on one real dispatcher, scheduled deterministically ----------
     conc = [c for c in conc_corpus]
     for _ in range(ctx.budget(80, 1200)):
@@ -967,6 +1227,18 @@ def replay(ctx, rp):
         print('thread errors:', ev['res']['errors'], 'steps:', ev['res']['steps'])
         print('judge  :', ev['bad'])
         return 0 if ev['bad'] is None else 1
+    if case.get('kind') == 'session':
+        o = evaluate_sessions(ctx, [case])[0]
+        print('disp   :', case['disp'])
+        for i, (lines, c, f, k) in enumerate(zip(session_lines(case), case['conns'], o['full'], o['kept'])):
+            print(f'connection {i}:')
+            for ln, keep in zip(lines, c['keep']):
+                print('   ', 'request      ' if keep else 'request (out)', ln[:160])
+            print('    answers with all lines       :', [x[:160] for x in f['outs']])
+            print('    answers without the marked   :', [x[:160] for x in k['outs']])
+        wire = [ev['judge']['bad'] for ev in o['evs'] if ev['judge']['bad'] is not None]
+        print('judge  :', o['bad'], wire)
+        return 0 if o['bad'] is None and not wire else 1
     ev = evaluate(ctx, [case])[0]
     print('chunks :', [bytes.fromhex(c)[:200] for c in case['chunks']])
     print('disp   :', case['disp'])
